@@ -16,7 +16,7 @@ class C13(Prop):
     title = "version information is reported completely and unaltered"
     thm_modules = ["PeliteModel.Thm.C13"]
     gens = [gen_version.gen_wellformed, gen_version.gen_variants, gen_version.gen_corrupt,
-            gen_version.gen_small, gen_version.gen_langparse]
+            gen_version.gen_small, gen_version.gen_langparse, gen_version.gen_zero_records]
 
     def oracle(self, op, impl, model, spec):
         """implementation against the specification's answer computed from the abstract tree"""
